@@ -121,6 +121,46 @@ example : destOf 239 0x90 < 256 ∧ ¬ ((0x80 : Nat) = 0x80 ∧ (0x91 : Nat) = d
     (sendPgn {} (sendPgn {} {} 1000 0 239 0x91 6 0x80 (List.range 20)).1.st 2000 0 239 0x90 6 0x80 (List.range 30)).2 = true := by
   refine ⟨by decide, by decide, by decide⟩
 
+/-- frame rules of the receive path: a TP.DT / TP.CM frame from `src` to `dest` touches at most the inbound record of
+    (src, dest) and the outbound record of (dest, src) -/
+theorem processDt_get?_other (s : St) (now : Nat) (mid : MessageId) (dest : Nat) (data : List Nat) (k : Nat)
+    (hk : k ≠ Tp21.buffer_hash mid.source_address dest) :
+    (processDt s now mid dest data).st.rcv.get? k = s.rcv.get? k := by
+  unfold processDt
+  crack [PyDict.get?_set_ne, PyDict.get?_erase_ne]
+
+theorem processCm_get?_other (cfg : Cfg) (s : St) (now : Nat) (mid : MessageId) (dest : Nat) (data : List Nat) (k : Nat)
+    (hk : k ≠ Tp21.buffer_hash mid.source_address dest) :
+    (processCm cfg s now mid dest data).st.rcv.get? k = s.rcv.get? k := by
+  unfold processCm
+  crack [PyDict.get?_set_ne, PyDict.get?_erase_ne]
+
+theorem processCm_snd_get?_other (cfg : Cfg) (s : St) (now : Nat) (mid : MessageId) (dest : Nat) (data : List Nat) (k : Nat)
+    (hk : k ≠ Tp21.buffer_hash dest mid.source_address) :
+    (processCm cfg s now mid dest data).st.snd.get? k = s.snd.get? k := by
+  unfold processCm
+  crack [PyDict.get?_set_ne, PyDict.get?_erase_ne]
+
+/-- TRANSPORT FRAMES OF ONE PEER PAIR NEVER TOUCH ANOTHER PAIR'S SESSIONS: any TP.CM (RTS, CTS, EOM-ACK, BAM, abort,
+    unknown control byte, any 8 bytes) or TP.DT from `src` to `dest` leaves the inbound session of every other
+    (source, destination) pair and the outbound session of every pair other than (dest, src) exactly as it was —
+    a peer cannot advance, corrupt, complete or free a transfer that is not its own -/
+theorem c10_frames_keep_other_pairs (cfg : Cfg) (s : St) (now : Nat) (mid : MessageId) (dest : Nat) (data : List Nat) (sa' da' : Nat)
+    (h1 : mid.source_address < 256) (h2 : dest < 256) (h3 : sa' < 256) (h4 : da' < 256) :
+    (¬ (sa' = mid.source_address ∧ da' = dest) →
+      (processCm cfg s now mid dest data).st.rcv.get? (Tp21.buffer_hash sa' da') = s.rcv.get? (Tp21.buffer_hash sa' da') ∧
+      (processDt s now mid dest data).st.rcv.get? (Tp21.buffer_hash sa' da') = s.rcv.get? (Tp21.buffer_hash sa' da')) ∧
+    (¬ (sa' = dest ∧ da' = mid.source_address) →
+      (processCm cfg s now mid dest data).st.snd.get? (Tp21.buffer_hash sa' da') = s.snd.get? (Tp21.buffer_hash sa' da') ∧
+      (processDt s now mid dest data).st.snd = s.snd) := by
+  refine ⟨fun hne => ⟨?_, ?_⟩, fun hne => ⟨?_, c10_dt_keeps_snd s now mid dest data⟩⟩
+  · exact processCm_get?_other cfg s now mid dest data _
+      (fun h => hne (J1939.Props.C01.c01_session_key_injective sa' da' mid.source_address dest h3 h4 h1 h2 h))
+  · exact processDt_get?_other s now mid dest data _
+      (fun h => hne (J1939.Props.C01.c01_session_key_injective sa' da' mid.source_address dest h3 h4 h1 h2 h))
+  · exact processCm_snd_get?_other cfg s now mid dest data _
+      (fun h => hne (J1939.Props.C01.c01_session_key_injective sa' da' dest mid.source_address h3 h4 h2 h1 h))
+
 end J1939.Props.C10
 
 /-! ## J1939-22 (FD) -/
